@@ -671,6 +671,7 @@ int main(int argc, char **argv) {
         model.max_states = 20000000ull;
         double t0 = v_now();
         esx_run(&model);
+        ESX_CYCLES(&model);
         v_out("INFO %s: page %zu, %d sizes, %d ops, depth %d, %.1f s", g_name, PAGE, g_p->ns, NOPS, depth, v_now() - t0);
     }
     v_finish();
